@@ -34,6 +34,8 @@ const (
 
 var harnesses []*vs.Harness
 
+var keepMetricsOrder bool
+
 func TestVerif(t *testing.T) {
 	log.SetOutput(io.Discard)
 	vs.Main(harnesses...)
@@ -131,6 +133,15 @@ func newWorld() *world {
 		panic(err)
 	}
 	w := &world{ctx: ctx, ipc: &IPC{ctx}}
+	if !keepMetricsOrder {
+		// Critical sections of metrics.lock only increment counters and insert into address sets;
+		// these operations commute and none of the C02/C03/C04/C06/C14 oracles reads them, so their
+		// order is left out of transition footprints and of the state identity (the lock stays a
+		// scheduling point; the runtime checks that the sections contain no scheduling point, which
+		// is why these harnesses also run the rounded counters' atomics without points).  C19 and
+		// C20 harnesses set keepMetricsOrder.
+		ctx.metrics.lock.Commutative()
+	}
 	vs.GoRole("Broker", vs.RoleDaemon, ctx.Broker)
 	return w
 }
